@@ -424,6 +424,9 @@ func (fr *Frame) invoke(c *ssa.CallCommon, recv Val, args []Val, rt types.Type, 
 
 func (fr *Frame) applyContract(ct *Contract, sig *types.Signature, names []string, args []Val, rt types.Type, pos token.Pos, calleeKey string) Val {
 	vc := fr.vc
+	if ct.Trusted {
+		vc.note("assumed contract used: " + calleeKey)
+	}
 	env := &Env{vc: vc, vars: map[string]Val{}, heap: fr.cur.heap, old: fr.cur.heap, now: fr.cur.now, pkg: fr.contractPkg(ct), what: "contract of " + calleeKey + " at " + fr.pos(pos).String(), reach: fr.curR}
 	for i, n := range names {
 		if i < len(args) {
